@@ -13,6 +13,7 @@ pub mod system;
 pub mod lfo;
 pub mod modsys;
 pub mod tweener;
+pub mod spatial;
 pub mod units;
 
 pub fn suite_salt(name: &str) -> u64 {
@@ -33,6 +34,7 @@ pub fn gen(suite: &str, rng: &mut Rng, n: usize, thorough: bool, stats: &mut Sta
 		"clock" => clock::gen(rng, n, thorough, stats),
 		"clocksys" => clocksys::gen(rng, n, thorough, stats),
 		"clocktear" => clocktear::gen(rng, n, thorough, stats),
+		"spatial" => spatial::gen(rng, n, thorough, stats),
 		_ => panic!("unknown suite {}", suite),
 	}
 }
@@ -50,6 +52,7 @@ pub fn run(suite: &str, ops: &[String]) -> Vec<String> {
 		"clock" => clock::run(ops),
 		"clocksys" => clocksys::run(ops),
 		"clocktear" => clocktear::run(ops),
+		"spatial" => spatial::run(ops),
 		_ => panic!("unknown suite {}", suite),
 	}
 }
